@@ -83,8 +83,9 @@ def rand_reply(rng, dist, longline=False):
 
 
 def frame_case(nrecv, ending, sched, pre, stream, expect=None):
+    """nrecv: a number of receive steps, or a history such as 'RSRRS' (R = receive step, S = a command is sent)"""
     sc = ",".join(map(str, sched)) if sched else "-"
-    c = "frame %d %s %s %s %s" % (nrecv, ending, sc, H(pre), H(stream))
+    c = "frame %s %s %s %s %s" % (nrecv, ending, sc, H(pre), H(stream))
     if expect is not None:
         c += " " + expect.replace(" ", "_")
     return c
@@ -128,10 +129,23 @@ def wf_cases(rng, dist, replies, tail, maxcut):
         k = rng.randrange(0, min(len(stream), 8192) + 1)
         out.append(mk([rng.choice([1, 2, 7, 600])] * 5, stream[:k], stream[k:]))
         dist.add("prebuffered-prefix")
+    if k421 is None and n >= 1:
+        # histories: commands are sent between the receive steps while later replies are already buffered / arriving
+        hist = lambda ops, sched, pre=b"", st=None: frame_case(ops, rng.choice(["eof", "err"]), sched, pre,
+                                                               stream if st is None else st, expect)
+        out.append(hist("S".join("R" * n) + "S", []))
+        out.append(hist("S" + "SS".join("R" * n), [1] * min(len(stream), 3000)))
+        ops = "".join(rng.choice(["R", "SR", "SSR"]) for _ in range(n)) + rng.choice(["", "S"])
+        out.append(hist(ops, [rng.choice([1, 3, 17, 100, 4096]) for _ in range(rng.randrange(1, 20))]))
+        k = rng.randrange(0, min(len(stream), 8192) + 1)
+        out.append(hist("S".join("R" * n), [rng.choice([1, 2, 7, 600])] * 5, stream[:k], stream[k:]))
+        dist.add("history:sends-between-receive-steps", 4)
     return out
 
 
 CORPUS_C01 = [
+    frame_case("RSR", "eof", [], b"", b"150 ok\r\n226 done\r\n", "ok:150:%s ok:226:%s | left=-" % (S("150 ok"), S("226 done"))),
+    frame_case("RSRS", "eof", [], b"120 wait\r\n220 re", b"ady\r\n33", "ok:120:%s ok:220:%s | left=%s" % (S("120 wait"), S("220 ready"), S("33"))),
     frame_case(2, "eof", [7], b"", b"150 ok\r\n226 done\r\n", "ok:150:%s ok:226:%s | left=-" % (S("150 ok"), S("226 done"))),
     frame_case(2, "eof", [17], b"", b"150 ok\r\n226 done\r\n", "ok:150:%s ok:226:%s | left=-" % (S("150 ok"), S("226 done"))),
     frame_case(1, "eof", [1] * 40, b"", b"211-feat\r\n abc\r\n211 end\r\n220 x\n",
